@@ -19,8 +19,8 @@ def run(res):
         bounded(res, 600)
 
 
-def bounded(res, limit):
-    r, n = rp.search(limit=limit, seed=res.seed)
+def bounded(res, limit, check=None):
+    r, n = rp.search(limit=limit, seed=res.seed, check=check or rp.check_c04)
     from pyvc.report import add_direct
     add_direct(res, "bounded:interleaved-oracle", "bounded", r is None, note="real InterleavedSampler vs executable oracle",
                backend="bounded", model=r)
@@ -30,9 +30,9 @@ def bounded(res, limit):
                         "samples": [{"case": c} for c in list(rp.neighbourhood(limit=2))]})
 
 
-def replay(ob):
+def replay(ob, check=None):
     seed = rp.case_from_model(ob.model)
-    r, n = rp.search(seed_case=seed, limit=4000)
+    r, n = rp.search(seed_case=seed, limit=4000, check=check or rp.check_c04)
     if r is None:
         return {"failed": False, "search": {"space": "N<=7 neighbourhood", "tried": n, "found": False}}
     return {"failed": True, "constructed": "replay.interleaved.build(case)", "input": r["case"], "what": r["what"],
